@@ -5,6 +5,10 @@
       nextline/spawned/plugin/plugins/concurrency.py   TaskAndThreadKeeper           (class Keeper)
                                                        TaskOrThreadToTraceMapper     (class Mapper)
       nextline/spawned/plugin/plugins/repeat.py        Repeater.on_start_trace / on_end_trace (class Repeater)
+      nextline/spawned/plugin/plugins/local_.py        LocalTraceFunc.init / local_trace_func (class Local),
+                                                       the closure Factory(hook)._factory      (function "local_factory")
+      nextline/spawned/plugin/plugins/pdb_/factory.py  PdbInstanceFactory.init / create_local_trace_func (class PdbFactory),
+                                                       the closure Factory(hook)._factory      (function "pdb_factory")
       nextline/utils/aio.py                            current_task_or_thread        (a module-level function)
       nextline/count.py                                the counter constructors
 
@@ -21,7 +25,7 @@
 From Coq Require Export List ZArith Bool String.
 Export ListNotations.
 
-Inductive cls := Keeper | Composer | Mapper | Repeater.
+Inductive cls := Keeper | Composer | Mapper | Repeater | Local | PdbFactory.
 
 (** a container attribute `self.<name>` of the (single) instance of a class *)
 Notation cref := (cls * string)%type.
@@ -55,7 +59,13 @@ Inductive expr :=
 | EMethod (c : cls) (m : string) (args : list expr)   (* self.m(args): must not reach a hook call *)
 | EHook (h : string)                        (* self._hook.hook.h(): a firstresult hook read by a plugin *)
 | ENewCounter (ctor : string) (args : list expr)      (* ThreadNoCounter(1): a NEW counter object *)
-| ENewObj (c : cls).                        (* ThreadTaskIdComposer(): runs __init__ *)
+| ENewObj (c : cls)                         (* ThreadTaskIdComposer(): runs __init__ *)
+| ENewInst (kind : string) (fields : list (string * expr))
+                                            (* StdInOut(..) / CustomizedPdb(stdin=.., stdout=..) / WithContext(trace, ..):
+                                               a NEW object of a class this model does not look into; tracked arguments only *)
+| EFunRef (f : string)                      (* the closure returned by Factory(hook): a reference to a translated function *)
+| ECallArgs (f : expr) (args : list expr).  (* f(a, b, c): f is a trace function (a bound method of an instance, or a
+                                               WithContext wrapper of one) *)
 
 (** what `self.d = ...()` creates *)
 Inductive ckind :=
